@@ -84,6 +84,7 @@ func c03(c *Ctx) {
 	r.Rule("C03.control-frames", "control frames of every legal size between fragments are read and dispatched to their handler without touching the message state (same rules as C08.read-buffer, C08.dispatch)")
 	c.borrow(c08, map[string]string{"C08.read-buffer": "C03.control-frames", "C08.dispatch": "C03.control-frames", "C08.defaults": "C03.control-frames"})
 	c.joinTerm("C03.reader-wrappers")
+	c.joinEOF("C03.reader-wrappers")
 	r.Rule("C03.inflater-exclusive", "an inflater returned to flateReaderPool is forgotten by the wrapper in the same step (never used or returned twice), so two connections never share one decompressor")
 	r.Assume("bufio.Reader.Read returns 0 <= n <= len(p)")
 
@@ -96,6 +97,7 @@ func c03(c *Ctx) {
 		}
 		r.Check("C03.accept-table", shortFn(rd.advance), "conformant-headers-pass-validator", rd.advance.Pos(), ok, why)
 	}
+	rd.lateRefusals("C03.accept-table")
 
 	rd.parserRules("C03.len-classes", "C03.mask-thread", "C03.final-flag", "C03.inflate-iff-rsv1")
 	rd.readUnmask("C03.mask-thread")
